@@ -10,6 +10,7 @@ package rtsp
 
 import (
 	"sync"
+	"sync/atomic"
 
 	"github.com/q191201771/lal/pkg/base"
 	"github.com/q191201771/lal/pkg/sdp"
@@ -41,6 +42,7 @@ type PullSession struct {
 	baseInSession *BaseInSession
 
 	disposeOnce sync.Once
+	disposed    int32 // set (atomically) once dispose has run
 	waitChan    chan error
 }
 
@@ -217,6 +219,11 @@ func (session *PullSession) OnConnectResult() {
 // OnDescribeResponse callback by ClientCommandSession
 func (session *PullSession) OnDescribeResponse(sdpCtx sdp.LogicContext) {
 	session.onDescribeResponse()
+	// the callback may have refused the session (e.g. the stream got another input while this pull was connecting) and
+	// disposed it: its sdp must not reach the observer then, it would replace the sdp of the accepted input
+	if atomic.LoadInt32(&session.disposed) != 0 {
+		return
+	}
 	session.baseInSession.InitWithSdp(sdpCtx)
 }
 
@@ -254,6 +261,7 @@ func (session *PullSession) WriteInterleavedPacket(packet []byte, channel int) e
 func (session *PullSession) dispose(err error) error {
 	var retErr error
 	session.disposeOnce.Do(func() {
+		atomic.StoreInt32(&session.disposed, 1)
 		Log.Infof("[%s] lifecycle dispose rtsp PullSession. session=%p", session.UniqueKey(), session)
 		e1 := session.cmdSession.Dispose()
 		e2 := session.baseInSession.Dispose()
